@@ -215,6 +215,14 @@ func (c *Ctx) workerErrFlow(pkgRel, fn string, _ interface{}, clause string) {
 				what = "the taxon-set check CompareTipIndexes"
 			case isRepoFunc(g, "tree", "EdgeIndex", "PutEdgeValue") && pkgRel == "support":
 				what = "PutEdgeValue"
+			case inRepo(g) && !g.Exported() && g.Pkg() == fi.Pkg.Types && returnsError(g) && c.reaches(g, func(h *types.Func) bool { return isRepoFunc(h, "tree", "Tree", "CompareTipIndexes") }, 2, map[*types.Func]bool{}):
+				// the per-tree preparation extracted into a helper that returns the first error
+				what = "the preparation helper " + g.Name() + " (ReinitIndexes, CompareTipIndexes)"
+				keyName = "CompareTipIndexes"
+				if c.reaches(g, func(h *types.Func) bool { return isRepoFunc(h, "tree", "Tree", "ReinitIndexes") }, 2, map[*types.Func]bool{}) {
+					r0 := c.errFlow(sp, call)
+					c.reportErrFlow("ERRFLOW", name+"#worker/ReinitIndexes", r0, "ReinitIndexes on the input tree (through "+g.Name()+")", clause)
+				}
 			case pkgRel == "support" && inRepo(g) && g.Pkg() == fi.Pkg.Types && returnsError(g) && c.reaches(g, func(h *types.Func) bool { return isRepoFunc(h, "tree", "EdgeIndex", "PutEdgeValue") }, 2, map[*types.Func]bool{}):
 				// the indexing phase extracted into a helper that returns the first error of PutEdgeValue
 				what = "PutEdgeValue (through " + g.Name() + ")"
